@@ -129,8 +129,13 @@ def _repr_probe(gb, info, st=None, ds=None, lay=None):
 
 
 def run_one(scen: Choices, sched: Choices, cls, cfg):
+    return execute(gen_scenario(scen, cls, cfg), sched, cls, cfg)
+
+
+def gen_scenario(scen: Choices, cls, cfg):
+    """The complete, JSON-able scenario of one run (everything but the schedule)."""
     if cls[0] == "real":
-        return run_real(scen, sched, cls, cfg)
+        return gen_real(scen, cls, cfg)
     vdtype, family = cls
     tier = cfg.get("tier", "quick")
     ds = gen.gen_dataset(scen, vdtype, tier, max_n=200 if tier == "thorough" else 120)
@@ -148,7 +153,14 @@ def run_one(scen: Choices, sched: Choices, cls, cfg):
     if not op_list:
         op_list = [ops.gen_op(Choices(replay=[]), family, ds)]
     fault = gen.gen_fault(scen) if cfg.get("fault_mode") else None
+    return {"ds": ds, "sort": sort, "lay": lay, "st": st, "ops": op_list, "fault": fault}
 
+
+def execute(sc, sched: Choices, cls, cfg):
+    if cls[0] == "real":
+        return run_real(sc, sched, cls, cfg)
+    vdtype, family = cls
+    ds, sort, lay, st, op_list, fault = sc["ds"], sc["sort"], sc["lay"], sc["st"], sc["ops"], sc["fault"]
     rec = {"violations": [], "probes": [], "faults": [], "interleavings": [], "ticks": 0, "nontrivial": False, "n_pools": 0}
     null_keys = any(c < 0 for kc in ds["key_codes"] for c in kc)
     key_kind = ds["key_kinds"][0] if len(ds["key_kinds"]) == 1 else "multi"
@@ -264,7 +276,8 @@ def run_one(scen: Choices, sched: Choices, cls, cfg):
     rec["probes"] = sorted(probes)
     rec["nontrivial"] = bool(differs_from_baseline and ngroups_present >= 2 and max_tasks >= 2 and not_fifo)
     ds = ds_full
-    rec["digest"] = hashlib.blake2b(repr((cls, ds, lay, st, op_list, sort)).encode(), digest_size=8).hexdigest()
+    rec["digest"] = gen.digest((cls, sc))
+    rec["scenario"] = sc
     rec["events"] = hashlib.blake2b(repr(events).encode(), digest_size=8).hexdigest()
     rec["result"] = hashlib.blake2b(repr(results_digest).encode(), digest_size=8).hexdigest()
     rec["max_tasks"] = max_tasks
@@ -364,9 +377,7 @@ def _real_mask(sc, n):
     return np.concatenate([pos, pos[:10]])
 
 
-def run_real(scen: Choices, sched: Choices, cls, cfg):
-    from groupby_lib.groupby.core import GroupBy
-
+def gen_real(scen: Choices, cls, cfg):
     s = scen
     sc = {"pattern": cls[1]}
     sc["n"] = REAL_SIZES[s.draw(len(REAL_SIZES))]
@@ -387,8 +398,14 @@ def run_real(scen: Choices, sched: Choices, cls, cfg):
     sc["transform"] = s.chance(1, 6)
     sc["cpu"] = s.weighted([(3, 4), (1, 1), (1, 2), (1, 16), (1, 64)])
     sc["workers"] = s.weighted([(4, None), (1, 1), (1, 2), (1, 3)])
-    fault = gen.gen_fault(s) if cfg.get("fault_mode") else None
+    sc["fault"] = gen.gen_fault(s) if cfg.get("fault_mode") else None
+    return sc
 
+
+def run_real(sc, sched: Choices, cls, cfg):
+    from groupby_lib.groupby.core import GroupBy
+
+    fault = sc["fault"]
     rec = {"violations": [], "probes": ["real_scale"], "faults": [], "interleavings": [], "ticks": 0, "nontrivial": False, "n_pools": 0}
     keys, vals = _real_dataset(sc)
     n = sc["n"]
@@ -475,7 +492,8 @@ def run_real(scen: Choices, sched: Choices, cls, cfg):
                 not_fifo = True
     rec["probes"] = sorted(probes)
     rec["nontrivial"] = bool(n >= 1_000_000 and max_tasks >= 2 and not_fifo)
-    rec["digest"] = hashlib.blake2b(repr((cls, sc)).encode(), digest_size=8).hexdigest()
+    rec["digest"] = gen.digest((cls, sc))
+    rec["scenario"] = sc
     rec["events"] = hashlib.blake2b(repr(events).encode(), digest_size=8).hexdigest()
     rec["result"] = hashlib.blake2b(repr(results).encode(), digest_size=8).hexdigest()
     if cfg.get("want_sample"):
